@@ -329,8 +329,37 @@ def r05d(ctx):
                           f"pairing than refining first")
 
 
+def r05e(ctx):
+    m = ctx.model
+    ctx.rule("R05e", "the two library drivers refine an edit under the same condition: TreeNode.diff and "
+                     "TreeNode.get_all_edit_contexts both loop `while edit.valid and not edit.is_complete() and "
+                     "edit.tighten_bounds()` (so the annotated tree and the flat edit list come from the same refinement)")
+    tn = m.need_class("TreeNode")
+    tests = {}
+    for name in ("diff", "get_all_edit_contexts"):
+        f = m.method(tn, name)
+        w = [x for x in walk_no_nested(f.node) if isinstance(x, ast.While) and any(
+            isinstance(c, ast.Call) and isinstance(c.func, ast.Attribute) and c.func.attr == "tighten_bounds" for c in ast.walk(x.test))]
+        w.sort(key=lambda x: x.lineno)
+        tests[name] = (f, w[0] if w else None)
+    if all(v[1] is not None for v in tests.values()):
+        a, b = (ast.unparse(v[1].test).replace(" ", "").replace("(", "").replace(")", "") for v in tests.values())
+        f, w = tests["get_all_edit_contexts"]
+        want = "edit.validandnotedit.is_completeandedit.tighten_bounds"
+        if a == b == want:
+            ctx.proved("R05e", f.file, "TreeNode.get_all_edit_contexts", w, "driver loops agree", f"both drivers loop while `{norm(w.test)}`")
+        else:
+            ctx.violation("R05e", f.file, "TreeNode.get_all_edit_contexts", w, "driver loops agree",
+                          f"TreeNode.diff refines while `{a}` but get_all_edit_contexts while `{b}` (expected `{want}` in both): the "
+                          f"diff tree and the flat list of edits are produced from differently refined edits, so their scripts or "
+                          f"totals can differ")
+    else:
+        ctx.inconclusive("R05e", "graphtage/tree.py", "TreeNode", None, "driver loops", "refinement loop not found in diff / get_all_edit_contexts")
+
+
 def run(ctx):
     r05a(ctx)
+    r05e(ctx)
     r05b(ctx)
     r05c(ctx)
     r05d(ctx)
